@@ -119,6 +119,24 @@ def judgeExcl (_payload impl : String) : Verdict :=
   { corr := ok, implSpec := ok, modelSpec := true, tags := [], nontrivial := true, cls := "excl",
     model := "(excl reached (after ... blocked))", spec := "the other task blocks while one is inside the locked region" }
 
+/-! ### match.multi (C09): two connections sharing one matcher -/
+
+/-- connection A carries the exchanges 1..nA, connection B the exchanges nA+1..nA+nB: every exchange is
+    reported once, k-th request with k-th response, under its own connection; nothing stays behind -/
+def judgeMulti (payload impl : String) : Verdict :=
+  match Sx.parse payload with
+  | some (.list (_ :: na :: nb :: _)) =>
+    match na.asNat?, nb.asNat? with
+    | some nA, some nB =>
+      let item (k : Nat) : Sx := .list [Sx.ofNat k, Sx.ofNat k, .atom (if k ≤ nA then "A" else "B")]
+      let want : Sx := .list [.list (.atom "items" :: (List.range (nA + nB)).map fun i => item (i + 1)),
+                              .list [.atom "left", Sx.ofNat 0]]
+      let ok := impl == want.toStr
+      { corr := ok, implSpec := ok, modelSpec := true, tags := [], nontrivial := true, cls := "multi",
+        model := want.toStr, spec := "every exchange once, k-th with k-th, under its own connection; nothing left in the matcher" }
+    | _, _ => .bad "bad-case"
+  | _ => .bad "bad-case"
+
 /-! ### sched.indep (C10): schedule independence without a model -/
 
 /-- what the dissector makes of the two byte streams under the given schedule must be what it makes
